@@ -324,6 +324,17 @@ pub fn next(rng: &mut Rng, sc: &Sc, o: &Obs) -> Vec<Op> {
                 6 => json!({"revoke_ownership_transfer": {}}),
                 _ => json!({"bogus": {}}),
             };
+            if rng.chance(1, 8) {
+                // a complete ownership handover of the treasury and back, with Config queried after each step
+                let a = sc.admin.clone();
+                let b = sc.users[0].clone();
+                let cfgq = || Op::QueryProbe { contract: tr.clone(), msg: "{\"config\":{}}".into() };
+                let ex = |who: &str, m: Value| Op::Exec { sender: who.to_string(), contract: tr.clone(), msg: m.to_string(), funds: vec![] };
+                return vec![
+                    ex(&a, json!({"transfer_ownership": {"new_owner": b}})), cfgq(), Op::Advance { secs: 7 * 24 * 3600 + 1 }, ex(&b, json!({"accept_ownership": {}})), cfgq(),
+                    ex(&b, json!({"transfer_ownership": {"new_owner": a}})), cfgq(), Op::Advance { secs: 7 * 24 * 3600 + 1 }, ex(&a, json!({"accept_ownership": {}})), cfgq(),
+                ];
+            }
             if rng.chance(1, 3) {
                 vec![Op::QueryProbe { contract: tr, msg: if rng.chance(1, 2) { "{\"config\":{}}".into() } else { "{\"x\":1}".into() } }]
             } else if rng.chance(1, 2) {
